@@ -167,7 +167,7 @@ func (p *Prog) inferHeapPure() {
 
 func hasStar(c *FuncContract) bool {
 	for _, a := range c.Assigns {
-		if a == "*" {
+		if a == "*" || a == "**" {
 			return true
 		}
 	}
